@@ -13,10 +13,11 @@ Python modelled
 * `GateReplacer` (`visit_Macro`, `visit_BlockStatement` with the same splice and the visited
   `iterations`, `visit_LoopStatement`, `visit_GateStatement` = substitute, `gate.gate_def(**new)`,
   `replace_gate`; `visit_Parameter` = lookup by name + `param.validate(arg)`; `visit_NamedQubit` =
+  (`JaqalError` unless the substituted `alias_from` is a `Register` or a `Parameter`, then)
   `alias_from[filter_float(alias_index)]`, i.e. `Register.__getitem__` / `Parameter.__getitem__`, which
   build `NamedQubit(f"{array.name}[{index}]", array, index)` and so run `NamedQubit.__init__`'s checks);
-* `BlockStatement.__init__`'s checks (`not subcircuit and iterations != 1` → `JaqalError`; `_validate_count`: a float
-  count, or a constant / parameter of kind FLOAT → `JaqalError`) and `LoopStatement.__init__`'s (`_validate_count`),
+* `BlockStatement.__init__`'s checks (`not subcircuit and iterations != 1` → `JaqalError`; `_validate_count`: a count that
+  is neither an int nor a constant / parameter of kind INT or NONE → `JaqalError`) and `LoopStatement.__init__`'s (`_validate_count`),
   which every rebuilt block / loop passes through.
 
 Recursion.  Python recurses `replace_gate → GateReplacer.visit(macro) → … → replace_gate`; with a macro
@@ -77,12 +78,22 @@ def badSourceKind : Option Kind → Bool
   | some _ => true
   | none => false
 
-/-- The checks of `NamedQubit.__init__(name, alias_from, alias_index)`. -/
+/-- `isinstance(i, (int, float, AnnotatedValue))` -/
+def isIndexLike : Val → Bool
+  | .int _ => true
+  | .flt _ => true
+  | .const _ _ => true
+  | .param _ _ => true
+  | _ => false
+
+/-- The checks of `NamedQubit.__init__(name, alias_from, alias_index)`. Every failure is a `JaqalError`
+(an index that is not a number / annotated value is rejected in both branches); the only other exceptions
+that can escape come from `alias_from.size` of an ill-built register (`sizeForCheck`). -/
 def checkQubit (src idx : Val) : M Unit :=
   if idx == .none || src == .none then .error (.jaqal "invalid-map-statement") else
   match avKind? idx, avKind? src with
   | none, none =>
-    -- `alias_index != int(alias_index)`
+    -- `not isinstance(alias_index, (int, float)) or alias_index != int(alias_index)`
     let rangeCheck (i : Int) : M Unit := do
       match ← sizeForCheck src with
       | none => pure ()
@@ -90,10 +101,10 @@ def checkQubit (src idx : Val) : M Unit :=
     match idx with
     | .int i => rangeCheck i
     | .flt d => if d.isIntegral then rangeCheck d.toInt else .error (.jaqal "index-not-integer")
-    | .str _ => .error (.other "ValueError")
-    | _ => .error (.other "TypeError")
+    | _ => .error (.jaqal "index-not-integer")
   | ki, ks =>
-    if badIndexKind ki then .error (.jaqal "index-kind")
+    if !isIndexLike idx then .error (.jaqal "index-not-integer")
+    else if badIndexKind ki then .error (.jaqal "index-kind")
     else if badSourceKind ks then .error (.jaqal "source-kind")
     else pure ()
 
@@ -117,6 +128,14 @@ def getItem (src idx : Val) : M Val :=
     pure (.qubit (n ++ "[" ++ s ++ "]") src idx)
   | none, _ => .error (.other "TypeError")
 
+/-- `isinstance(a, (Register, Parameter))` -/
+def isArrayLike : Val → Bool
+  | .regF _ _ => true
+  | .regA _ _ => true
+  | .regS _ _ _ _ _ => true
+  | .param _ _ => true
+  | _ => false
+
 /-- `self.arguments[name]` -/
 def lookupArg (args : List (String × Val)) (n : String) : Option Val := (args.find? (·.1 == n)).map (·.2)
 
@@ -128,6 +147,8 @@ def substVal (args : List (String × Val)) : Val → M Val
     | none => pure (.param n k)
   | .qubit _ src idx => do
     let s ← substVal args src
+    -- `if not isinstance(alias_from, (Register, Parameter)): raise JaqalError("Cannot index …")`
+    if !isArrayLike s then .error (.jaqal "not-a-register") else
     let i ← substVal args idx
     getItem s (filterFloat i)
   | v => pure v
@@ -138,12 +159,13 @@ def neq1 : Val → Bool
   | .flt d => !(d == { neg := false, mant := 1, exp := 0 })
   | _ => true
 
-/-- `_validate_count(count, …)` raises: a float, or a constant / parameter of kind FLOAT -/
+/-- `_validate_count(count, …)` raises: the count is neither an `int` nor a constant / parameter of kind INT or
+NONE (a float, a FLOAT constant, a qubit or register parameter kind, a register, a qubit, `None` are all rejected) -/
 def badCount : Val → Bool
-  | .flt _ => true
-  | .const _ v => GateDef.constKind v == .float
-  | .param _ k => k == .float
-  | _ => false
+  | .int _ => false
+  | .const _ v => !(GateDef.constKind v == .int || GateDef.constKind v == .none)
+  | .param _ k => !(k == .int || k == .none)
+  | _ => true
 
 /-- `BlockStatement(parallel, subcircuit, iterations, statements)` -/
 def mkBlock (par sub : Bool) (it : Val) (body : List Stmt) : M Stmt :=
